@@ -115,6 +115,7 @@ type Outcome struct {
 	AllUpIDs      []uuid.UUID          // every upstream id the broker ever assigned
 	AllDownAlias  map[uuid.UUID]uint32 // every downstream the broker ever registered: id -> alias
 	LinkInfos     []LinkInfo
+	DialStacks    []string
 }
 
 // LinkInfo is the transport-boundary view of one link incarnation.
@@ -260,6 +261,7 @@ const (
 func Run(s Scenario) *Outcome {
 	o := &Outcome{S: s}
 	w := world.New()
+	w.Net.DebugDial = os.Getenv("VERIF_DEBUG_DIAL") != ""
 	var mu sync.Mutex
 	var tokN atomic.Int64
 	var ackAll atomic.Bool
@@ -761,6 +763,7 @@ func Run(s Scenario) *Outcome {
 	// collect
 	o.Ledger = w.B.Ledger()
 	o.Links = len(w.Net.Links())
+	o.DialStacks = w.Net.DialStacks
 	for _, l := range w.Net.Links() {
 		o.LinkInfos = append(o.LinkInfos, LinkInfo{ID: l.ID, Mode: l.Mode(), Log: l.Log()})
 	}
